@@ -19,7 +19,7 @@ PROPERTY = "C10"
 LEVEL = "exploration"
 RULE = ("sizes {1, 2, 1000, 64 KiB, 1 MiB-1, 1 MiB, 1 MiB+1, 4 MiB, 8 MiB} (+ random sizes, 32 MiB in thorough) x "
         "{client, server connection} x {send_data directly, HsmsProtocol.send_message (1 MiB packets)} x receiver pacing "
-        "{immediate, delayed start, small reads with sleeps, a 7 s stall after the first MiB, small reads while the sender "
+        "{immediate, delayed start, small reads with sleeps, a 7 s stall after the first MiB, a first read 8 s after a send that fits the socket buffer (longer than T8), small reads while the sender "
         "disables as soon as its send succeeded, abortive close midway} x peer receive buffer {default, 4 KiB}; 1-3 sends per "
         "connection; distinct by (mode, path, sizes, pacing, rcvbuf); non-trivial when the total exceeds 256 KiB "
         "(more than loopback socket buffering); plus: thousands of 3000-byte sends (and mixed 1..4097-byte sends) towards a peer that reads in bursts or lets the sender run into full buffers and then makes room for 100 kB at a time; a peer that leaves in the middle of a transfer while another one connects at once (nothing of the send may reach the second); half of the send_message transfers while the peer keeps sending Linktest.req and another thread of the application sends Linktest.req through send_message (control messages share the socket with the data)")
@@ -67,6 +67,11 @@ class Drain(threading.Thread):
         stuck.register_harness_thread()
         if self.pacing == "delayed":
             time.sleep(self.rng.choice([0.2, 0.5]))
+        if self.pacing == "delayed_longer_than_T8":
+            # the send fits into the sender's socket buffer and has been reported long before the peer (small receive buffer: the
+            # window is closed at once) takes its first byte, later than every protocol time-out (T8 = 5 s by default)
+            time.sleep(8.0)
+            self.last_rx = time.monotonic()
         if self.pacing == "stop_and_go":
             # the peer lets the sender run into full buffers, then makes a little room, again and again: after every pause the
             # sender's next small send meets a send buffer that has room for a part of it only
@@ -299,7 +304,7 @@ def _case(ctx, idx, active, path, sizes, pacing, rcvbuf):
                 break
             if drain.eof:
                 break
-            if time.monotonic() - drain.last_rx > 5.0 and pacing not in ("delayed", "stall", "stop_and_go"):
+            if time.monotonic() - drain.last_rx > 5.0 and pacing not in ("delayed", "delayed_longer_than_T8", "stall", "stop_and_go"):
                 break
             if time.monotonic() - drain.last_rx > 12.0:
                 break
@@ -406,6 +411,7 @@ def run(ctx):
                     cases.append((active, path, [body], "immediate", 0))
             cases.append((active, path, [MiB + 5, 17, 2 * MiB], "delayed", 4096))
             cases.append((active, path, [256 * 1024], "small_then_sender_disables", 4096))
+            cases.append((active, path, [192 * 1024], "delayed_longer_than_T8", 4096))
             cases.append((active, path, [3, 600000], "small_then_sender_disables", 0))
             if path == "send_data":
                 # thousands of small sends towards a peer that reads in bursts (each send meets a nearly full send buffer)
